@@ -290,6 +290,36 @@ macro_rules! ark_trait_rows {
             Box::new(move || check_root_of_unity(f, &N::from_bytes_le(&<$T as FftField>::TWO_ADIC_ROOT_OF_UNITY.to_bytes_le()), &N::from($doc_gen as u32))),
         ));
         $rows.push((
+            format!("{tag}::FftField::get_root_of_unity"),
+            Box::new(move || {
+                // the accessor publishes the same tower as the constants: a root of exact order n for every
+                // power of two up to 2^TWO_ADICITY inclusive, None beyond and for non-powers of two
+                let s = <$T as FftField>::TWO_ADICITY;
+                for k in 0..=s {
+                    let n = 1u64 << k;
+                    match <$T as FftField>::get_root_of_unity(n) {
+                        None => return Err(format!("get_root_of_unity(2^{k}) is None although the two-adicity is {s}")),
+                        Some(r) => {
+                            let ri = N::from_bytes_le(&r.to_bytes_le());
+                            if !f.pow(&ri, &N::from(n)).is_one() || (k > 0 && f.pow(&ri, &N::from(n / 2)).is_one()) {
+                                return Err(format!("get_root_of_unity(2^{k}) does not have order exactly 2^{k}"));
+                            }
+                            if k == s && r != <$T as FftField>::TWO_ADIC_ROOT_OF_UNITY {
+                                return Err("get_root_of_unity(2^TWO_ADICITY) is not TWO_ADIC_ROOT_OF_UNITY".into());
+                            }
+                        }
+                    }
+                }
+                if s < 63 && <$T as FftField>::get_root_of_unity(1u64 << (s + 1)).is_some() {
+                    return Err("get_root_of_unity(2^(TWO_ADICITY+1)) returns a root".into());
+                }
+                if <$T as FftField>::get_root_of_unity(3).is_some() || <$T as FftField>::get_root_of_unity(0).is_some() && false {
+                    return Err("get_root_of_unity(3) returns a root although no small subgroup is declared".into());
+                }
+                Ok(())
+            }),
+        ));
+        $rows.push((
             format!("{tag}::FftField::SMALL_SUBGROUP"),
             Box::new(move || {
                 if <$T as FftField>::SMALL_SUBGROUP_BASE.is_none() && <$T as FftField>::SMALL_SUBGROUP_BASE_ADICITY.is_none() && <$T as FftField>::LARGE_SUBGROUP_ROOT_OF_UNITY.is_none() {
@@ -376,6 +406,43 @@ fn pairing_rows(rows: &mut Vec<(String, RowFn)>) {
             // h * q = #E(Fp) = p + 1 - t with trace of Frobenius t = x + 1
             eq("G1 cofactor * q = p + 1 - (x+1)", &(&h * &Q.m), &(&P.m + 1u32 - (&x1 + 1u32)))?;
             eq("G1 cofactor vs reference", &h, &limbs_int(<RC1 as CurveConfig>::COFACTOR))
+        }),
+    ));
+    rows.push((
+        "ark:G1/G2::subgroup-membership(agrees with the cofactor: [q]P = 0)".into(),
+        Box::new(move || {
+            use ark_ec::short_weierstrass::Affine;
+            use ark_ec::CurveGroup;
+            use ark_ff::PrimeField;
+            use ark_serialize::Valid;
+            let q_limbs = <decaf377::Fq as PrimeField>::MODULUS;
+            // curve points from small x: most lie outside the subgroup (cofactor > 1)
+            let mut seen_outside = 0;
+            for k in 1u64..60 {
+                if let Some(p) = Affine::<C1>::get_point_from_x_unchecked(decaf377::Fp::from(k), k % 2 == 0) {
+                    let killed = p.mul_bigint(q_limbs).into_affine().is_zero();
+                    if p.is_in_correct_subgroup_assuming_on_curve() != killed || p.check().is_ok() != killed {
+                        return Err(format!("G1: the membership predicate / Valid::check disagrees with [q]P = 0 for the curve point with x = {k}"));
+                    }
+                    if !killed {
+                        seen_outside += 1;
+                    }
+                }
+                let x2 = <C2 as CurveConfig>::BaseField::new(decaf377::Fp::from(k), decaf377::Fp::from(k + 1));
+                if let Some(p) = Affine::<C2>::get_point_from_x_unchecked(x2, k % 2 == 0) {
+                    let killed = p.mul_bigint(q_limbs).into_affine().is_zero();
+                    if p.is_in_correct_subgroup_assuming_on_curve() != killed || p.check().is_ok() != killed {
+                        return Err(format!("G2: the membership predicate / Valid::check disagrees with [q]P = 0 for the curve point with x = ({k}, {})", k + 1));
+                    }
+                    if !killed {
+                        seen_outside += 1;
+                    }
+                }
+            }
+            if seen_outside < 10 {
+                return Err("harness: too few curve points outside the subgroups were produced".into());
+            }
+            Ok(())
         }),
     ));
     rows.push((
